@@ -61,24 +61,36 @@ Proof. exact BytesP.decode_encode_i8_refuted_pre. Qed.
 
 (** binary / °binary, numeric payload: every element written with the width class the encoder
     selects (U8..I64 / F32 / F64, chosen from min/max/integrality/f32-exactness of the whole array)
-    is [width_of t] bytes long and reads back as a matching number (as the same byte for U8) *)
+    is [width_of t] bytes long and reads back as the SAME 64-bit pattern -- negative zero, NaN payloads
+    and subnormals included -- (for U8: as the byte that denotes it) *)
 Theorem C18_binary_num_roundtrip : forall (ops : Bin.numops), BinP.num_laws ops ->
   forall d n, Forall BinP.wfnum d -> In n d ->
   let t := Bin.choose ops d in
   length (Bin.write_num ops t n) = Bin.width_of t /\
   match t with
-  | Bin.U8 => Bin.to_int ops n = Some (Bin.read_num ops t (Bin.write_num ops t n))
-  | _ => BinP.num_eq ops (Bin.read_num ops t (Bin.write_num ops t n)) n
+  | Bin.U8 => Bin.to_int ops n = Some (Bin.read_num ops t (Bin.write_num ops t n)) /\
+              Bin.of_int ops (Bin.read_num ops t (Bin.write_num ops t n)) = n
+  | _ => Bin.read_num ops t (Bin.write_num ops t n) = n
   end.
 Proof. exact BinP.binary_num_roundtrip. Qed.
+
+(** record of the defect repaired by fix b303665 (model of the width selection before it, [choose_pre]):
+    [-0.0] was stored as U8 and came back as the byte 0 = +0.0; the current selection stores it as F32
+    and returns the same bits *)
+Theorem C18_binary_negzero_refuted_pre :
+  exists d n, In n d /\ Forall BinP.wfnum d /\ Bin.choose_pre Bin.cops d = Bin.U8 /\
+    Bin.of_int Bin.cops (Bin.read_num Bin.cops Bin.U8 (Bin.write_num Bin.cops Bin.U8 n)) <> n /\
+    Bin.choose Bin.cops d = Bin.F32 /\ Bin.read_num Bin.cops Bin.F32 (Bin.write_num Bin.cops Bin.F32 n) = n.
+Proof. exact BinP.negzero_refuted_pre. Qed.
 
 (** °binary (binary v) matches v, for every value without map keys whose header and payload are
     within the format's limits ([BinS.wf]: flags <= 15, label valid UTF-8 shorter than 2^32, rank <= 255,
     dims < 2^32, product of the non-zero dims <= 2^63 (validate_size), element count = product of the shape, f64 patterns < 2^64, bytes < 256, characters
     scalar values) and nested at most MAX_DEPTH = 32 deep: the encoder succeeds, and the decoder --
     including the element-count guard of 5718f7d -- returns a value with the same flags, label and shape
-    whose payload matches ([BinS.bmatch]: numbers equal up to the sign of zero, possibly stored as
-    bytes; bytes, characters, complex bit patterns equal; boxes element-wise), leaving [rest] unread *)
+    whose payload is the same ([BinS.bmatch]: numbers have the SAME bit patterns -- no exception for
+    negative zero or NaN payloads --, or come back as the bytes that denote them; bytes, characters,
+    complex bit patterns equal; boxes element-wise), leaving [rest] unread *)
 Theorem C18_from_binary_to_binary : forall (ops : Bin.numops), BinP.num_laws ops ->
   forall v, BinS.wf v -> (BinS.height v <= Bin.MAX_DEPTH)%nat ->
   exists bs, Bin.to_binary_top ops v = Some bs /\
@@ -110,7 +122,7 @@ Qed.
 
 Example C18_nonvacuous_binary :
   let v := Bin.BBox {| Bin.alloc := false; Bin.flags := 0; Bin.label := []; Bin.shape := [2] |} None
-       [Bin.BLeaf {| Bin.alloc := false; Bin.flags := 4; Bin.label := []; Bin.shape := [2] |} None (Bin.LNum [4607182418800017408; 4643211215818981376]);
+       [Bin.BLeaf {| Bin.alloc := false; Bin.flags := 4; Bin.label := []; Bin.shape := [2] |} None (Bin.LNum [9223372036854775808 (* -0.0 *); 9221120237041090563 (* W *)]);
         Bin.BBox {| Bin.alloc := true; Bin.flags := 0; Bin.label := [76]; Bin.shape := [] |} None
           [Bin.BLeaf {| Bin.alloc := false; Bin.flags := 0; Bin.label := []; Bin.shape := [1] |} None (Bin.LChar [955])]] in
   BinS.wf v /\ BinS.height v = 2%nat /\
@@ -132,7 +144,7 @@ Proof.
     | |- _ => cbn; lia
     end.
   - eexists. split; [vm_compute; reflexivity|].
-    cbn [BinS.bmatch BinS.pmatch]. unfold BinS.hmatch, BinP.num_eq. cbn [Bin.flags Bin.label Bin.shape].
+    cbn [BinS.bmatch BinS.pmatch]. unfold BinS.hmatch. cbn [Bin.flags Bin.label Bin.shape].
     repeat match goal with
     | |- _ /\ _ => split
     | |- Forall2 _ _ _ => constructor
@@ -152,5 +164,6 @@ Print Assumptions C18_un_utf16_utf16.
 Print Assumptions C18_decode_encode_bytes.
 Print Assumptions C18_decode_encode_i8_refuted_pre.
 Print Assumptions C18_binary_num_roundtrip.
+Print Assumptions C18_binary_negzero_refuted_pre.
 Print Assumptions C18_from_binary_to_binary.
 Print Assumptions C18_num_laws_inhabited.
